@@ -902,9 +902,42 @@ def unhashable(t):
     return z3.Or(Py.is_list(t), Py.is_dict(t), Py.is_nodelist(t))
 
 
+def split_last(seqterm):
+    """Concat(..., Unit(y)) -> (prefix, y) syntactically, else None."""
+    t = seqterm
+    if z3.is_app(t) and t.decl().kind() == z3.Z3_OP_SEQ_UNIT:
+        return S.EmptySeq, t.arg(0)
+    if z3.is_app(t) and t.decl().kind() == z3.Z3_OP_SEQ_CONCAT and t.num_args() >= 2:
+        lastarg = t.arg(t.num_args() - 1)
+        if z3.is_app(lastarg) and lastarg.decl().kind() == z3.Z3_OP_SEQ_UNIT:
+            pre = [t.arg(i) for i in range(t.num_args() - 1)]
+            return (pre[0] if len(pre) == 1 else z3.Concat(*pre)), lastarg.arg(0)
+    return None
+
+
+def _container_seq(obj):
+    t = obj
+    if z3.is_app(t) and t.decl().name() in ("tuple", "list") and t.num_args() == 1:
+        return t.decl().name(), t.arg(0)
+    return None, None
+
+
 def getitem(it, obj, key):
     if isinstance(key, SliceVal):
+        # parts[:-1] of a syntactic `prefix ++ (last,)`
+        if S.is_term(obj) or True:
+            ot = T(it, obj)
+            kind, seq = _container_seq(ot)
+            if kind is not None and split_last(seq) is not None:
+                st, sp, se = (z3.simplify(T(it, x)) for x in (key.start, key.stop, key.step))
+                if st.decl().name() == "none" and se.decl().name() == "none" and z3.eq(sp, S.mk_int(-1)):
+                    pre, _ = split_last(seq)
+                    return Py.tuple(pre) if kind == "tuple" else Py.list(pre)
         return slice_get(it, obj, key)
+    if S.is_term(obj) and S.is_term(key) and z3.eq(z3.simplify(key), S.mk_int(-1)):
+        kind, seq = _container_seq(obj)
+        if kind is not None and split_last(seq) is not None:
+            return split_last(seq)[1]
     if isinstance(obj, SymObj) and obj.cls not in (list, dict):
         if "__getitem__" in _mro_names(obj.cls):
             return it.call_method(obj, "__getitem__", [key])
@@ -958,8 +991,13 @@ def getitem(it, obj, key):
     it.raise_(TypeError, "object is not subscriptable")
 
 
-def store_back(it, box, container_node, frame, new):
+def store_back(it, box, container_node, frame, new, old=None, added=None):
     """Write the new content of a mutated container: into its box, or rebind the local name."""
+    if old is not None:
+        # JSON-ness is preserved by updates with JSON values (elements of the new container are
+        # elements of the old one or the added value)
+        pre = S.isjson(old) if added is None else z3.And(S.isjson(old), S.json_value(added))
+        it.assume(z3.Implies(pre, S.isjson(new)))
     if box is not None:
         if box.origin != "FRESH":
             it.trace.append(("write", box.origin, box.cls.__name__, "content"))
@@ -993,7 +1031,7 @@ def setitem(it, obj, key, val, frame, node):
             new = Py.dict(Py.keys(cur), newvals)
         else:
             new = Py.dict(z3.Concat(Py.keys(cur), z3.Unit(key)), z3.Concat(Py.vals(cur), z3.Unit(val)))
-        return store_back(it, box, node, frame, new)
+        return store_back(it, box, node, frame, new, cur, val)
     if it.branch(Py.is_list(cur)):
         if not it.branch(S.is_intlike(key)):
             it.raise_(TypeError, "list indices must be integers or slices")
@@ -1004,7 +1042,7 @@ def setitem(it, obj, key, val, frame, node):
             it.raise_(IndexError, "list assignment index out of range")
         j = z3.If(kk < 0, kk + n, kk)
         new = Py.list(z3.Concat(z3.Extract(s, 0, j), z3.Unit(val), z3.Extract(s, j + 1, n - j - 1)))
-        return store_back(it, box, node, frame, new)
+        return store_back(it, box, node, frame, new, cur, val)
     it.raise_(TypeError, "object does not support item assignment")
 
 
@@ -1024,7 +1062,7 @@ def delitem(it, obj, key, frame, node):
             z3.Concat(z3.Extract(ks, 0, j), z3.Extract(ks, j + 1, n - j - 1)),
             z3.Concat(z3.Extract(vs, 0, j), z3.Extract(vs, j + 1, n - j - 1)),
         )
-        return store_back(it, box, node, frame, new)
+        return store_back(it, box, node, frame, new, cur)
     if it.branch(Py.is_list(cur)):
         if not it.branch(S.is_intlike(key)):
             it.raise_(TypeError, "list indices must be integers or slices")
@@ -1035,7 +1073,7 @@ def delitem(it, obj, key, frame, node):
             it.raise_(IndexError, "list assignment index out of range")
         j = z3.If(kk < 0, kk + n, kk)
         new = Py.list(z3.Concat(z3.Extract(s, 0, j), z3.Extract(s, j + 1, n - j - 1)))
-        return store_back(it, box, node, frame, new)
+        return store_back(it, box, node, frame, new, cur)
     it.raise_(TypeError, "object doesn't support item deletion")
 
 
@@ -1119,6 +1157,13 @@ def compare(it, op, a, b):
             r = (not r) if isinstance(r, bool) else z3.Not(r)
         return S.mk_bool(r)
     a, b = T(it, a), T(it, b)
+    if _head(a) == "int" and _head(b) == "int":
+        # pure integer comparison: keep it in linear integer arithmetic (no Int/Real mixing)
+        x, y = Py.i(a), Py.i(b)
+        r = {ast.Lt: x < y, ast.LtE: x <= y, ast.Gt: x > y, ast.GtE: x >= y}.get(type(op))
+        if r is None:
+            raise Unsupported(f"comparison {type(op).__name__}")
+        return S.mk_bool(r)
     both_num = z3.And(S.is_number(a), S.is_number(b))
     both_str = z3.And(Py.is_str(a), Py.is_str(b))
     both_seq = z3.Or(z3.And(Py.is_list(a), Py.is_list(b)), z3.And(Py.is_tuple(a), Py.is_tuple(b)))
@@ -1137,6 +1182,11 @@ def compare(it, op, a, b):
     else:
         raise Unsupported(f"comparison {type(op).__name__}")
     return S.mk_bool(r)
+
+
+def _head(t):
+    t = z3.simplify(t)
+    return t.decl().name() if t.num_args() > 0 or t.decl().kind() == z3.Z3_OP_DT_CONSTRUCTOR else None
 
 
 def identical(it, a, b):
@@ -1168,7 +1218,16 @@ def equal(it, a, b):
     if isinstance(a, SymObj) and isinstance(b, SymObj) and a.cls not in (list, dict):
         return a is b
     ta, tb = T(it, a), T(it, b)
+    ha, hb = _head(ta), _head(tb)
+    if ha == "int" and hb == "int":
+        return Py.i(ta) == Py.i(tb)
+    if ha == "str" and hb == "str":
+        return Py.s(ta) == Py.s(tb)
     add_eq_facts(it, ta, tb)
+    if getattr(it, "flags", {}).get("py_eq_is_rfc_eq") and getattr(it, "json_equality_site", True):
+        # carve-out of the known finding "Python == identifies booleans with numbers": on the
+        # remaining inputs Python's == and JSON equality coincide
+        return S.rfc_eq(ta, tb)
     return S.py_eq(ta, tb)
 
 
